@@ -41,6 +41,8 @@ type Prog struct {
 	// MissingDecls lists baseline declarations that exist under no name.
 	Renamed      []string
 	MissingDecls []string
+	// Merged: baseline functions that were inlined into their only caller ("pkgrel::Name" → "pkgrel::Caller").
+	Merged map[string]string
 }
 
 // RepoDir returns the directory of the repository under analysis.
@@ -79,6 +81,11 @@ func Load(dir, goarch string) (*Prog, error) {
 		} else {
 			p.MissingDecls = missing
 		}
+		p.Merged = mergedInto(p.Pkgs, base, nil, p.MissingDecls)
+		for k, v := range p.Merged {
+			p.Renamed = append(p.Renamed, fmt.Sprintf("func %s: inlined into its only caller %s, which is analysed in its place", k, v))
+		}
+		sort.Strings(p.Renamed)
 	}
 	prog, _ := ssautil.AllPackages(pkgs, ssa.InstantiateGenerics)
 	prog.Build()
@@ -166,6 +173,19 @@ func (p *Prog) SSAPkg(rel string) *ssa.Package {
 // the module, name is "Func", "T.Method" or "(*T).Method" (pointer-ness is
 // ignored: the method set of *T is searched).
 func (p *Prog) Func(rel, name string) *ssa.Function {
+	f := p.funcByName(rel, name)
+	if f == nil && p.Merged != nil {
+		n := strings.NewReplacer("(", "", ")", "", "*", "").Replace(name)
+		if to, ok := p.Merged[rel+"::"+n]; ok {
+			if i := strings.Index(to, "::"); i >= 0 {
+				return p.funcByName(to[:i], to[i+2:])
+			}
+		}
+	}
+	return f
+}
+
+func (p *Prog) funcByName(rel, name string) *ssa.Function {
 	sp := p.SSAPkg(rel)
 	if sp == nil {
 		return nil
